@@ -71,6 +71,38 @@ def run(ctx):
             texts[o['id']] = (o.pop('text'), S, E)
             obs.append(o)
     ctx.extra['planted_probes'] = planted
+    # SCALE: an operation whose START and END are thousands of records apart (a parked thread, nested interrupts): the
+    # call is still rendered from ITS START record
+    from .pairing import new_parser
+    nlong = 0
+    names_ = decoders()
+    for i in range(4 if ctx.quick else 40):
+        name = names_[rnd.randrange(len(names_))]
+        S = pr.distinct_words(name, 'start')
+        E = [0] + pr.distinct_words(name, 'end')[1:]
+        base = pr.render(name, S, E, [])
+        n = rnd.choice([4094, 4095, 4096, 4200, 8200, 16500, 65600][:4 if ctx.quick else 7])
+        w = pr.w
+        inner = []
+        for k in range(n):
+            r = k % 3
+            inner.append(w.known(rnd.choice([0, 3]), 1) if r == 0 else w.sys('BSC_getpid', 0, 1) if r == 1 else w.unknown(0, 1))
+        stream = [w.sys(name, 1, 1, tuple(S))] + inner + [w.sys(name, 2, 1, tuple(E))]
+        p_ = new_parser(w)
+        out = None
+        try:
+            for k, a in enumerate(stream, 1):
+                r = p_.feed(w.concrete(a, k))
+                if k == len(stream):
+                    out = None if r is None else str(r)
+        except Exception as ex:
+            out = 'RAISED ' + type(ex).__name__
+        nlong += 1
+        if out != base:
+            ctx.violation('C09/long-window@%s' % name, '%s with %d records of the thread between START and END renders %r, '
+                          'without them %r' % (name, n, out, base),
+                          {'kind': 'render', 'name': name, 'start': [hex(x) for x in S], 'end': [hex(x) for x in E], 'nested': n})
+    ctx.extra['long_windows'] = nlong
     nv, rej, _ = validate_observations('Render_Val', obs, ctx.workdir, name='c09val', timeout=3000)
     ctx.traces += nv
     by = {o['id']: o for o in obs}
